@@ -1184,6 +1184,83 @@ def extra_c13(V, rng, thorough, stats):
                         'sequence without it')
 
 
+def framing_timing_verdicts(kind, traces, cfgname):
+    """(verdict, in time) per trace of a framing operator: in time = every item came out while
+    the chunk that completes it was being processed (the trace specifications of C15 compare
+    the emission chunk with the model's; C15 itself does not depend on it)"""
+    from harness.checks import c15
+    if kind == 'line':
+        text = C.cfg(spec='TraceSpec', constants=c15.LINE_CFG)
+        module = 'LineFramingTrace'
+    else:
+        p, order = cfgname[2:].split(',')
+        text = C.cfg(spec='TraceSpec', constants=dict(Bytes=set(), P=int(p), Order=order, MaxItems=0,
+                                                       MaxLen=0, MaxChunk=0, KeepHist=False, Deviation='none'))
+        module = 'LengthPrefixTrace'
+    return C.validate_traces(module, traces, cfg_text=text)
+
+
+def extra_c11(V, rng, thorough, stats):
+    """The framing operators are per-item operators of a pipeline as well: a line, a frame is
+    emitted while the chunk that completes it is processed, whether or not the chunk ends on
+    a frame boundary."""
+    from harness.checks import c15
+
+    def sizes_for(lens, total):
+        style = rng.choice(['per-frame', 'frames', 'random', 'one'])
+        if style == 'per-frame':            # every chunk ends exactly on a frame boundary
+            sizes = list(lens)
+        elif style == 'frames':             # several whole frames per chunk
+            sizes, k = [], 0
+            while k < len(lens):
+                n = rng.randint(1, 3)
+                sizes.append(sum(lens[k:k + n]))
+                k += n
+        elif style == 'one':
+            sizes = [total] if total else []
+        else:
+            sizes = c15.random_sizes(rng, total, rng.choice([1, 4, 30]))
+        rest = total - sum(sizes)
+        if rest > 0:
+            sizes.append(rest)
+        return sizes
+    groups = {}
+    for _ in range(240 if thorough else 60):
+        if rng.random() < 0.5:
+            items = [''.join(rng.choice('ab \r\t\u00e9,') for _ in range(rng.choice([0, 1, 3, rng.randint(0, 20)])))
+                     for _ in range(rng.randint(0, 6))]
+            tail = rng.choice(['', '', '', 'xy'])
+            lens = [len(i) + 1 for i in items]
+            tr = c15.line_trace(items, tail, sizes_for(lens, sum(lens) + len(tail)), mode='plain')
+            groups.setdefault(('line', 'line'), []).append(tr)
+        else:
+            p, order = rng.choice([1, 2, 4]), rng.choice(['little', 'big'])
+            items = [bytes(rng.randint(0, 255) for _ in range(rng.choice([0, 1, 2, rng.randint(0, 40)])))
+                     for _ in range(rng.randint(0, 6))]
+            lens = [len(i) + p for i in items]
+            tr = c15.lp_trace(items, -1, sizes_for(lens, sum(lens)), p, order, mode='plain')
+            groups.setdefault(('length_prefix', 'P=%d,%s' % (p, order)), []).append(tr)
+    n = late = 0
+    for (kind, cfgname), traces in sorted(groups.items()):
+        verdicts, st = framing_timing_verdicts(kind, traces, cfgname)
+        for k in ('states', 'transitions', 'tlc_runs'):
+            stats[k] = stats.get(k, 0) + st[k]
+        for tr, v in zip(traces, verdicts):
+            n += 1
+            if v[0] == 'ACCEPT' and v[2] is True:
+                continue
+            if v[0] == 'REJECT' and (v[2].startswith('model-') or v[2] in ('frame',)):
+                continue            # what is delivered is C15's subject, not promptness
+            late += 1
+            V.violation({'family': 'C11', 'mode': 'framing', 'op': kind, 'config': cfgname, 'items': tr['items'],
+                         'chunks': [len(c) for c in tr['chunks']], 'trace': tr},
+                        'framing-emission-time',
+                        detail='items per chunk: %s, at completion: %s' % (
+                            [len(o) for o in tr['outs']], len(tr['final'])))
+    stats['traces'] = stats.get('traces', 0) + n
+    stats['framing_timing_traces'] = n
+
+
 def extra_c10(V, rng, thorough, stats):
     cases = []
     keys = [('id', 0), ('modc', 2), ('modc', 3), ('mulc', -1)]
@@ -1547,7 +1624,7 @@ PROPS = {
                 rule='two keys with items alive in one run, or a re-used key slot'),
     'C10': dict(cases=cases_c10, relevant=relevant_c10, nontrivial=nontrivial_c10, lsc=['seq', 'int'], extra=extra_c10,
                 rule='a key with at least two items'),
-    'C11': dict(cases=cases_c11, relevant=relevant_c11, nontrivial=nontrivial_c11, lsc=['seq', 'int'],
+    'C11': dict(cases=cases_c11, relevant=relevant_c11, nontrivial=nontrivial_c11, lsc=['seq', 'int'], extra=extra_c11,
                 rule='some output of the pipeline is emitted in the step of a source item '
                      '(not only at completion)'),
     'C13': dict(cases=cases_c13, relevant=relevant_c13, nontrivial=nontrivial_c13, lsc=['int'], extra=extra_c13,
